@@ -91,6 +91,9 @@ type Metastore struct {
 	// Gate, when set, is called before every call is executed (outside the monitor's mutex);
 	// a scheduler blocks here to decide which pending call goes next.
 	Gate func(c *MSCall)
+	// PreInner, when set, is called immediately before an insert is handed to the wrapped metastore (after all of
+	// the monitor's own bookkeeping): a barrier here makes inserts of several goroutines overlap as tightly as possible.
+	PreInner func(c *MSCall)
 	// Who labels the calling "process" (set by the harness per goroutine via WhoFn).
 	WhoFn func() string
 	// Drop disables call retention (counters stay exact) for long stress runs.
@@ -195,6 +198,9 @@ func (m *Metastore) Store(ctx context.Context, id string, created int64, e *appe
 	case FaultWriteFalse:
 		_, _ = m.Inner.Store(ctx, id, created, e)
 		return false, nil
+	}
+	if m.PreInner != nil {
+		m.PreInner(c)
 	}
 	ok, err := m.Inner.Store(ctx, id, created, e)
 	c.OK = ok
